@@ -462,6 +462,7 @@ def vocabulary(rec, cap):
                 used_types.add(c["stype"])
                 if c["name"] not in ("*", "+"):
                     fixed_names.add(c["name"])
+    tier2.insert(0, "# c\x0czz v1")       # one comment line, whatever str.splitlines() makes of a form feed
     tier2.append("zz v1")
     tier3.append("9k v1")
     tnames = sorted(n for n, t in rec["types"].items())
